@@ -598,7 +598,9 @@ func runB(root, id string, eb *engineB) int {
 		"scenarios":  perScen,
 		"build_s":    buildS,
 		"explanation": "states = executions run (evaluated + re-run by iterative deepening), transitions = scheduler steps of evaluated executions, " +
-			"traces_validated_against_impl = executions replayed a second time from their recorded choice list on the real code with an identical step hash and outcome",
+			"traces_validated_against_impl = executions replayed a second time from their recorded choice list on the real code with an identical step hash and outcome; " +
+			"exhaustive = every scenario enumerated the finite space named in `rule` (all schedules with at most bound_requested deviations) completely within its deadline - " +
+			"it does not mean all interleavings: a scenario whose whole choice tree was walked says tree_exhausted:true",
 	}
 	assume := append([]string{
 		"code between two synchronisation operations is atomic unless the file is instrumented at statement level (data-race freedom elsewhere)",
